@@ -87,6 +87,7 @@ type dsListener struct {
 }
 
 type dsWorld struct {
+	lksLate        bool
 	w              *World
 	r              *simkit.Run
 	mode           dsMode
@@ -288,6 +289,31 @@ func runDsync(r *simkit.Run, c Cfg, mode dsMode) {
 		d.atHead = true
 		sopts = append(sopts, dagsync.HttpTimeout(10*time.Minute))
 	}
+	lks := false
+	if mode.name == "c08" && !mode.directed && tp.Chance(1, 3, "lastKnown?") {
+		// the application remembers, from an earlier life, the oldest
+		// advertisement of each publisher as synced; it answers slowly (the
+		// callback is a scheduling point), and it asks for the latest sync
+		// itself now and then
+		lks = true
+		d.lksLate = tp.Chance(2, 3, "lks.late")
+		sites["lks.call"] = true
+		r.EnableSites(sites)
+		known := map[peer.ID]cid.Cid{}
+		mainGID := simkit.CurGID()
+		for _, pub := range d.pubs {
+			if len(pub.Ads) > 0 {
+				known[pub.Ident.ID] = pub.Ads[0]
+			}
+		}
+		sopts = append(sopts, dagsync.WithLastKnownSync(func(p peer.ID) (cid.Cid, bool) {
+			if simkit.CurGID() != mainGID { // the harness's own observations are not scheduled
+				r.ParkHook("lks.call", w.Names.Name(string(p)), nil)
+			}
+			c, ok := known[p]
+			return c, ok
+		}))
+	}
 	// options are independent of each other: hand them over in a drawn order
 	for i := len(sopts) - 1; i > 0; i-- {
 		j := tp.Choose(i+1, "optOrder")
@@ -374,6 +400,18 @@ func runDsync(r *simkit.Run, c Cfg, mode dsMode) {
 			}
 		})
 	}
+	if lks {
+		n := tp.Range(2, 6, "nPeek")
+		r.Go("peeker", func(t *simkit.Task) {
+			for i := 0; i < n; i++ {
+				t.Yield("op")
+				pub := d.pubs[tp.Choose(len(d.pubs), "peekPub")]
+				l := d.sub.Sub.GetLatestSync(pub.Ident.ID)
+				r.Probe("get-latest-sync-beside-syncs")
+				t.Logf("GetLatestSync(%s) -> %v", pub.Name, l)
+			}
+		})
+	}
 	if mode.name == "c08" && tp.Chance(1, 4, "remover?") {
 		// the application drops a publisher's handler now and then
 		// (RemoveHandler is public API): whatever sync of that publisher is
@@ -457,7 +495,31 @@ func runDsync(r *simkit.Run, c Cfg, mode dsMode) {
 		}
 		return
 	}
+	lksHeld := 0
 	custom := func(p *simkit.Parked) *simkit.Action {
+		if p.Site == "lks.call" && d.lksLate && r.TaskOf(p.GID) == "peeker" && lksHeld < 300 {
+			// the application's answer is slow: it comes after a sync of
+			// that publisher has recorded its result, if one is under way
+			sent := false
+			for _, sd := range d.sends {
+				if sd.peer == p.Who && !sd.err {
+					sent = true
+				}
+			}
+			others := false
+			for _, q := range r.Enabled() {
+				if q != p && q.Site != "lks.call" {
+					others = true
+				}
+			}
+			if !sent && others {
+				lksHeld++
+				return &simkit.Action{Name: "hold lks.call|" + p.Who, Do: nil}
+			}
+			if sent {
+				r.Probe("last-known-sync-answered-after-a-sync-recorded-its-result")
+			}
+		}
 		if d.holdAsync && p.Site == "net.req" && d.closeCalled && !d.closeDone {
 			// Close must cancel announce-triggered syncs, not wait for their
 			// publisher: while Close is in progress, a publisher whose lock
